@@ -138,6 +138,7 @@ pub fn babai_reduce_i32(
 
     let bitsize = |itr: IntoIter<i32>| {
         (itr.map(|i| i.abs()).max().unwrap() * 2)
+            .max(1)
             .ilog2()
             .next_multiple_of(8) as usize
     };
